@@ -473,11 +473,8 @@ func FuzzParseScope(f *testing.F) {
 		f.Add(s)
 	}
 	f.Fuzz(func(t *testing.T, s string) {
-		pa := ociauth.ParseScope(s)
-		got, _ := iterList(pa)
-		want := mkset(modelParse(s)).sorted()
-		if fmt.Sprint(got) != fmt.Sprint(want) {
-			t.Fatalf("ParseScope(%q) holds %v, model %v", s, got, want)
+		if v := vt.RunOne(propText, TextScript{TextA: s}); v.Failed() {
+			t.Fatalf("%s", v.Failure())
 		}
 	})
 }
